@@ -180,7 +180,7 @@ def _script_safe(ctx, ws, fl, val, at, label='script-safe:embedded') -> None:
     sanitised = False
     for n in ast.walk(ws.node):
         if isinstance(n, ast.Call) and isinstance(n.func, ast.Attribute) and n.func.attr == 'replace' and len(n.args) == 2 \
-                and isinstance(n.args[0], ast.Constant) and n.args[0].value in ('</', '<', '</script', '/'):
+                and isinstance(n.args[0], ast.Constant) and n.args[0].value in ('</', '<', '/'):       # not '</script': end tags are matched case-insensitively (`</SCRIPT>`)
             recv_atoms = fl.atoms(n.func.value, n)
             if 'call:dumps' in recv_atoms:
                 # and that sanitised value is what flows into val
@@ -343,6 +343,25 @@ def r5_headline(ctx: Ctx, ws: FuncInfo) -> None:
         if n == 0:
             continue
         ctx.check(not bad, 'C12.R5', f, 'headline-figures', f'{n} headline figures read from stats', f'{bad} are recomputed instead of read from the analysed totals')
+        # … and each of them is printed under its own label: in a line `… Spending … {fmt(x)}` x is the analysed spending total
+        LABELS = (('Net Cash Flow', 'cash_flow'), ('Cash Flow', 'cash_flow'), ('Net Transfers', 'transfers_net'), ('Income', 'income_total'), ('Spending', 'spending_total'),
+                  ('Credits', 'credits_total'), ('Investments', 'investment_total'))
+        for js in [x for x in ast.walk(f.node) if isinstance(x, ast.JoinedStr)]:
+            want = None
+            for part in js.values:
+                if isinstance(part, ast.Constant) and isinstance(part.value, str):
+                    hits = [(part.value.rfind(lb), key) for lb, key in LABELS if lb in part.value]
+                    if hits:
+                        want = max(hits)[1] if not any(lb in part.value for lb, _k in LABELS[:3]) else next(k for lb, k in LABELS if lb in part.value)
+                elif isinstance(part, ast.FormattedValue) and want is not None and any(isinstance(c_, ast.Call) and call_name(c_) == 'fmt' for c_ in ast.walk(part.value)):
+                    at_ = ffl.atoms(part.value, js)
+                    shown = sorted(a_[10:] for a_ in at_ if a_.startswith('key:stats:'))
+                    names_ = {n_.id for n_ in ast.walk(part.value) if isinstance(n_, ast.Name)}
+                    ok_ = f'key:stats:{want}' in at_ or want in names_
+                    ctx.check(ok_, 'C12.R5', f, f'label:{want}', f'the {want} line shows the analysed {want}',
+                              f'the line labelled for {want} prints {src(part.value)[:40]!r} (derived from {shown or sorted(names_)}): this format reports another figure under that label than the '
+                              f'other formats do', js)
+                    want = None
     ej = proj.func('analyzer.export_json')
     efl = get_flow(proj, ej)
     out = [s for s in ast.walk(ej.node) if isinstance(s, ast.Assign) and src(s.targets[0]) == 'output' and isinstance(s.value, ast.Dict)]
@@ -500,6 +519,17 @@ def r7_category(ctx: Ctx, ws: FuncInfo) -> None:
                  f'{level}:{fld}', f'{level} {fld} += merchant {fld}, once', f'{level} {fld} accumulation', target_text=f"{prefix}['{fld}']")
     rets = [r for r in ast.walk(bc.node) if isinstance(r, ast.Return)]
     ctx.check(len(rets) == 1 and src(rets[0].value) == 'categories', 'C12.R7', bc, 'return', 'returns the grouped categories', 'category view is not what is returned')
+    # per-category type totals: every transaction is put into the income / investment / transfer / spending sum by its *own* tags (the analysed totals are
+    # transaction-level too; a merchant can have differently tagged transactions)
+    tl = [lp for lp in ast.walk(bc.node) if isinstance(lp, ast.For) and isinstance(lp.target, ast.Name) and "'transactions'" in src(lp.iter)]
+    for lp in tl:
+        reads = [c for c in ast.walk(lp) if isinstance(c, ast.Call) and isinstance(c.func, ast.Attribute) and c.func.attr == 'get' and c.args
+                 and isinstance(c.args[0], ast.Constant) and c.args[0].value == 'tags']
+        bad_ = [c for c in reads if not (isinstance(c.func.value, ast.Name) and c.func.value.id == lp.target.id)]
+        if reads:
+            ctx.check(not bad_, 'C12.R7', bc, 'type-totals:own-tags', 'each transaction is classified by its own tags',
+                      f'{src(bad_[0])[:40] if bad_ else ""!r} inside the loop over the transactions: the per-category income / spending sums classify a transaction by tags that '
+                      f'are not its own, so they no longer add up to the analysed totals', bad_[0] if bad_ else lp)
 
 
 # --------------------------------------------------------------------------- R8
